@@ -293,6 +293,72 @@ def _ed_case(i, rng, tier):
             failures.append(C.fail(None, "toImmutable / reload of an ed()-built %s (%ss) raised %s: %s" % (kind, seq.__name__, type(e).__name__, str(e)[:160]), **wit))
     return {"digest": C.digest("ed", sp, stream), "nontrivial": True, "failures": failures[:4], "counters": dict(counters, equal_pairs=1), "sets": {"kinds": S.kinds_in(sp)}, "sample": {"kind": "ed()-built", "tree": S.describe(sp)}}
 
+_CLOSE_PAIRS = [(2**53 + 1, 2**53), (-(2**53) - 1, -(2**53)), (2**63 + 1, 2**63), (1577836800000000001, 1577836800000000000), (0.1 + 0.2, 0.3), (1.0 + 2.0**-52, 1.0), (5e-324, 0.0), (1e308, float("inf")), (1e-300, 2e-300), (float("nan"), 7.5), (float("nan"), float("inf"))]
+
+
+def _directed_case(i, rng, tier):
+    """Two live aggregators filled with the same data except for one value that is different but as close as two
+    values can be (integers beyond 2**53 that round to one double, neighbouring doubles, NaN against a number inside a
+    vector): wherever the two documents differ, == must be False at zero tolerance."""
+    hg = env.hg()
+    j = i // 16
+    v1, v2 = _CLOSE_PAIRS[j % len(_CLOSE_PAIRS)]
+    if (j // len(_CLOSE_PAIRS)) % 2:
+        v1, v2 = v2, v1
+    leaf = ("Minimize", "Maximize", "Sum", "Average", "Deviate", "Bag", "BagN2", "BagN3", "Categorize", "Bin")[(j // 3) % 10]
+    wrap = ("bare", "Label", "Select", "BinOf", "UntypedLabel")[(j // 7) % 5]
+    common = [rng.choice([1.0, -2.5, 4.0, 0.5]) for _ in range(rng.randint(0, 3))]
+    pos = rng.randint(0, len(common))
+
+    def mk():
+        if leaf == "BagN2":
+            x = hg.Bag(lambda d: (3.0, d), "N2")
+        elif leaf == "BagN3":
+            x = hg.Bag(lambda d: (d, 3.0, d), "N3")
+        elif leaf == "Bag":
+            x = hg.Bag(lambda d: d, "N")
+        elif leaf == "Categorize":
+            x = hg.Categorize(lambda d: repr(d))
+        elif leaf == "Bin":
+            x = hg.Bin(4, -10.0, 10.0, lambda d: 0.0, hg.Minimize(lambda d: d))
+        else:
+            x = getattr(hg, leaf)(lambda d: d)
+        if wrap == "Label":
+            return hg.Label(a=x, b=x.zero())
+        if wrap == "UntypedLabel":
+            return hg.UntypedLabel(a=x, b=hg.Count())
+        if wrap == "Select":
+            return hg.Select(lambda d: 1.0, x)
+        if wrap == "BinOf":
+            return hg.Bin(2, -1.0, 1.0, lambda d: 0.5, x)
+        return x
+
+    failures = []
+    counters = {"directed_close_pairs": 1}
+    wit = {"leaf": leaf, "wrap": wrap, "values": [repr(v1), repr(v2)], "common": common, "position": pos}
+    try:
+        a, b = mk(), mk()
+        for h, v in ((a, v1), (b, v2)):
+            for d in common[:pos] + [v] + common[pos:]:
+                h.fill(d)
+        da, db = json.dumps(a.toJson(), sort_keys=True), json.dumps(b.toJson(), sort_keys=True)
+    except Exception as e:  # noqa: BLE001
+        # a value the primitive does not take (OverflowError of a huge int in Sum, ...): nothing to compare
+        return {"digest": C.digest("directed", leaf, wrap, repr(v1), repr(v2), common, pos), "nontrivial": False, "failures": [], "counters": {"directed_not_fillable": 1}, "sets": {}, "sample": {"kind": "directed close pair", "leaf": leaf, "error": type(e).__name__}}
+    if da != db:
+        counters["directed_documents_differ"] = 1
+        try:
+            e1, e2, n1, n2 = (a == b), (b == a), (a != b), (b != a)
+            if e1 or e2 or not n1 or not n2:
+                failures.append(C.fail(None, "a == b (%s/%s, != %s/%s) although the documents differ: %s vs %s" % (e1, e2, n1, n2, da[:160], db[:160]), **wit))
+        except Exception as e:  # noqa: BLE001
+            failures.append(C.fail(None, "comparing two %s in %s raised %s: %s" % (leaf, wrap, type(e).__name__, str(e)[:120]), **wit))
+    else:
+        counters["directed_documents_equal"] = 1
+        if not (a == b and b == a) or a != b:
+            failures.append(C.fail(None, "a != b although the documents are identical: %s" % da[:200], **wit))
+    return {"digest": C.digest("directed", leaf, wrap, repr(v1), repr(v2), common, pos), "nontrivial": True, "failures": failures, "counters": counters, "sets": {"kinds": {leaf}}, "sample": {"kind": "directed close pair", "leaf": leaf, "wrap": wrap, "values": [repr(v1), repr(v2)]}}
+
 
 def run_case(i, rng, tier):
     from histogrammar.defs import Factory
@@ -300,6 +366,8 @@ def run_case(i, rng, tier):
 
     if i % 16 == 9:
         return _ed_case(i, rng, tier)
+    if i % 16 == 13:
+        return _directed_case(i, rng, tier)
 
     label, sp = C.pick_spec(i, rng, tier)
     stream = S.gen_stream(rng, sp, rng.randint(0, 10), {"cat_bool": True})  # boolean categories are legitimate keys
